@@ -20,7 +20,15 @@ use std::collections::BTreeMap;
 #[derive(Serialize, Deserialize, Clone, Debug, PartialEq)]
 pub enum Case {
     /// values `vals` of types `wire` encoded by the typed-untyped encoder, decoded at `expect` through the untyped API
-    Untyped { env: SEnv, wire: Vec<SType>, expect: Vec<SType>, vals: Vec<AV> },
+    Untyped {
+        env: SEnv,
+        wire: Vec<SType>,
+        expect: Vec<SType>,
+        vals: Vec<AV>,
+        /// decode with no expected type at all (get_value::<IDLValue>() until is_done); `expect` is ignored
+        #[serde(default)]
+        no_type: bool,
+    },
     /// value of Rust type `sender` (plus an optional surplus argument) decoded at Rust type `receiver`
     Native { sender: String, receiver: String, vseed: u64, size: usize, extra: Option<String> },
 }
@@ -107,7 +115,7 @@ pub fn generate(_prop: &str, _tier: Tier, seed: u64, run: u64) -> Sc {
             let val = AV::some(AV::Record(vec![(key.id(), AV::Text(gen_text(&mut wl)))]));
             let tail_t = SType::vec(SType::Prim(Prim::Nat64));
             let tail_v = AV::Vec((0..wl.range(0, 30)).map(|_| AV::NatN(64, wl.next_u64())).collect());
-            cases.push(Case::Untyped { env: SEnv::new(), wire: vec![wire, tail_t.clone()], expect: vec![expect, tail_t], vals: vec![val, tail_v] });
+            cases.push(Case::Untyped { env: SEnv::new(), wire: vec![wire, tail_t.clone()], expect: vec![expect, tail_t], vals: vec![val, tail_v], no_type: false });
         } else {
             let mut k = TyKnobs::draw(&mut knobs);
             k.allow_empty = false;
@@ -155,7 +163,10 @@ pub fn generate(_prop: &str, _tier: Tier, seed: u64, run: u64) -> Sc {
                 1 => expect.push(SType::opt(SType::Prim(Prim::Nat))), // missing optional argument
                 _ => {}
             }
-            cases.push(Case::Untyped { env, wire, expect, vals });
+            // sometimes the receiver has no expected type at all
+            let no_type = wl.chance(1, 6);
+            let expect = if no_type { wire.clone() } else { expect };
+            cases.push(Case::Untyped { env, wire, expect, vals, no_type: no_type });
         }
     }
     Sc { stack_kib, cases, qseed: knobs.next_u64() }
@@ -348,12 +359,18 @@ impl Decoder<'_> {
             cfg.set_skipping_quota(q);
         }
         match self.kind {
-            Case::Untyped { .. } => {
+            Case::Untyped { no_type, .. } => {
                 let r = guard(|| -> Result<(Vec<AV>, Option<usize>, Option<usize>), String> {
                     let mut de = IDLDeserialize::new_with_config(&self.bytes, &cfg).map_err(corpus::err_chain)?;
                     let mut out = Vec::new();
-                    for t in &self.ttys {
-                        out.push(from_idl(&de.get_value_with_type(&self.tenv, t).map_err(corpus::err_chain)?));
+                    if *no_type {
+                        while !de.is_done() {
+                            out.push(from_idl(&de.get_value::<candid::IDLValue>().map_err(corpus::err_chain)?));
+                        }
+                    } else {
+                        for t in &self.ttys {
+                            out.push(from_idl(&de.get_value_with_type(&self.tenv, t).map_err(corpus::err_chain)?));
+                        }
                     }
                     de.done().map_err(corpus::err_chain)?;
                     let cost = de.get_config().compute_cost(&cfg);
@@ -396,7 +413,7 @@ fn check_case(l: &mut Local, case: &Case, qrng: &mut Rng, log: bool) {
     let mut tenv = TypeEnv::new();
     let mut ttys = Vec::new();
     match case {
-        Case::Untyped { env, wire, expect, vals } => {
+        Case::Untyped { env, wire, expect, vals, no_type } => {
             if !env_closed(env) || wire.iter().chain(expect.iter()).any(|t| !closed(env, t)) || wire.len() != vals.len() {
                 return;
             }
@@ -412,8 +429,8 @@ fn check_case(l: &mut Local, case: &Case, qrng: &mut Rng, log: bool) {
             };
             ttys = expect.iter().map(to_type).collect();
             n_nodes = vals.iter().map(|v| v.nodes()).sum();
-            desc = format!("untyped ({}) at ({})", wire.iter().map(show_type).collect::<Vec<_>>().join(", "), expect.iter().map(show_type).collect::<Vec<_>>().join(", "));
-            identity = wire == expect;
+            desc = format!("{} ({}) at ({})", if *no_type { "untyped-without-type" } else { "untyped" }, wire.iter().map(show_type).collect::<Vec<_>>().join(", "), expect.iter().map(show_type).collect::<Vec<_>>().join(", "));
+            identity = wire == expect || *no_type;
             // the untyped API is charged as "skipping" throughout: 50x in the decoding quota
             let table_len = crate::models::rd::parse(&bytes).map(|p| p.table.len()).unwrap_or(0) as f64;
             let header = crate::models::rd::parse(&bytes).map(|p| p.header_len).unwrap_or(0) as f64;
@@ -749,7 +766,7 @@ pub fn size(sc: &Sc) -> usize {
     sc.cases
         .iter()
         .map(|c| match c {
-            Case::Untyped { env, wire, expect, vals } => 2 + env.0.values().map(|t| t.nodes()).sum::<usize>() + wire.iter().chain(expect.iter()).map(|t| t.nodes()).sum::<usize>() + vals.iter().map(|v| v.nodes()).sum::<usize>(),
+            Case::Untyped { env, wire, expect, vals, no_type } => 2 + env.0.values().map(|t| t.nodes()).sum::<usize>() + wire.iter().chain(expect.iter()).map(|t| t.nodes()).sum::<usize>() + vals.iter().map(|v| v.nodes()).sum::<usize>(),
             Case::Native { size, extra, .. } => 3 + size + extra.is_some() as usize,
         })
         .sum()
@@ -784,7 +801,7 @@ pub fn shrink(sc: &Sc) -> Vec<Sc> {
                     out.push(s);
                 }
             }
-            Case::Untyped { env, wire, expect, vals } => {
+            Case::Untyped { env, wire, expect, vals, no_type } => {
                 // drop an argument
                 if wire.len() > 1 {
                     for i in 0..wire.len() {
@@ -797,14 +814,14 @@ pub fn shrink(sc: &Sc) -> Vec<Sc> {
                             e.remove(i);
                         }
                         let mut s = sc.clone();
-                        s.cases[0] = Case::Untyped { env: env.clone(), wire: w, expect: e, vals: v };
+                        s.cases[0] = Case::Untyped { env: env.clone(), wire: w, expect: e, vals: v, no_type: *no_type };
                         out.push(s);
                     }
                 }
                 // expect exactly the wire types
                 if wire != expect {
                     let mut s = sc.clone();
-                    s.cases[0] = Case::Untyped { env: env.clone(), wire: wire.clone(), expect: wire.clone(), vals: vals.clone() };
+                    s.cases[0] = Case::Untyped { env: env.clone(), wire: wire.clone(), expect: wire.clone(), vals: vals.clone(), no_type: *no_type };
                     out.push(s);
                 }
                 // shrink vectors inside values
@@ -813,7 +830,7 @@ pub fn shrink(sc: &Sc) -> Vec<Sc> {
                         let mut v = vals.clone();
                         v[i] = v2;
                         let mut s = sc.clone();
-                        s.cases[0] = Case::Untyped { env: env.clone(), wire: wire.clone(), expect: expect.clone(), vals: v };
+                        s.cases[0] = Case::Untyped { env: env.clone(), wire: wire.clone(), expect: expect.clone(), vals: v, no_type: *no_type };
                         out.push(s);
                     }
                 }
